@@ -27,7 +27,8 @@ PAIRS = {
                      [('C1', 'TA', 1), ('C2', 'TA', 1), ('C3', 'TB', 2), ('C4', 'TC', 3), ('C5', 'TC', 3)],
                      [(0, 1), (1, 2), (2, 3), (3, 4)]),
 }
-EVENTS = [['call', 0], ['call', 1], ['call', 2], ['call_wrong_species'], ['call_target_itself'], ['call_ndarray'],
+EVENTS = [['call', 0], ['call', 1], ['call', 2], ['call', 'ref'], ['call_wrong_species'], ['call_target_itself'],
+          ['call_ndarray'], ['call_same_name_longer'], ['call_same_name_shorter'],
           ['mut_ref_coords'], ['mut_tgt_coords'], ['mut_arg_coords', 1], ['mut_last_result']]
 SCALE = 0.5
 
@@ -76,6 +77,9 @@ class World:
         self.osys = System(MemFile(gro_text(orecs), 'oth.gro'),
                            MemFile(itp_text('OTHER', [(f'X{i + 1}', 'OTH', 1) for i in range(nr)], redges), 'OTHER.itp'))
         self.other = self.osys[0]
+        # same molecule name as the reference, atoms a strict extension / a strict prefix of it
+        self.longer = self._same_name(ratoms + [('B9', ratoms[-1][1], ratoms[-1][2])], redges + [(nr - 1, nr)], base)
+        self.shorter = self._same_name(ratoms[:-1], [e for e in redges if nr - 1 not in e], base)
         # argument 2 collides with argument 0 on everything a cache could be keyed on except the
         # conformation: same geometric centre (to rounding), same first atom position is NOT kept
         a0 = self.args[0].atoms_positions
@@ -91,8 +95,16 @@ class World:
         self.tresnames = [x[0] for x in self.tresnames]
         self.snap()
 
+    def _same_name(self, atoms, edges, base):
+        from gaddlemaps.components import System
+        pts = np.vstack([base, base[-1:] + 0.2])[:len(atoms)]
+        recs = [(ri, rn, an, i + 1, pts[i]) for i, (an, rn, ri) in enumerate(atoms)]
+        s = System(MemFile(gro_text(recs), 'same.gro'), MemFile(itp_text('REFMOL', atoms, edges), 'REFMOL.itp'))
+        self._keep = getattr(self, '_keep', []) + [s]
+        return s[0]
+
     def tracked(self):
-        out = {'ref': self.ref, 'tgt': self.tgt, 'other': self.other}
+        out = {'ref': self.ref, 'tgt': self.tgt, 'other': self.other, 'longer': self.longer, 'shorter': self.shorter}
         for i, a in enumerate(self.args):
             out[f'arg{i}'] = a
         for i, r in enumerate(self.results):
@@ -162,8 +174,9 @@ class C04(Check):
         key = (pair, mode, seed, arg_index, coords.tobytes())
         if key not in self._fresh_cache:
             w = World(pair, mode, seed)
-            w.args[arg_index].atoms_positions = coords.copy()
-            out = w.map(w.args[arg_index])
+            arg = w.ref if arg_index == 'ref' else w.args[arg_index]
+            arg.atoms_positions = coords.copy()
+            out = w.map(arg)
             self._fresh_cache[key] = (out.atoms_positions.copy(), [a.name for a in out], list(out.resnames),
                                       len(out))
         return self._fresh_cache[key]
@@ -177,7 +190,7 @@ class C04(Check):
         d = np.array([0.125, -0.25, 0.5])
         try:
             if name == 'call':
-                arg = w.args[ev[1]]
+                arg = w.ref if ev[1] == 'ref' else w.args[ev[1]]
                 before_resids = list(arg.resids)
                 out = w.map(arg)
                 exp_pos, exp_names, exp_resnames, exp_len = self.fresh_result(pair, mode, seed, ev[1],
@@ -200,9 +213,11 @@ class C04(Check):
                             V.append(('call/result-is-not-a-new-object', k))
                     w.results.append(out)
                     w.snapshot[f'result{len(w.results) - 1}'] = out.atoms_positions.copy()
-            elif name in ('call_wrong_species', 'call_target_itself', 'call_ndarray'):
+            elif name in ('call_wrong_species', 'call_target_itself', 'call_ndarray', 'call_same_name_longer',
+                          'call_same_name_shorter'):
                 bad = {'call_wrong_species': w.other, 'call_target_itself': w.tgt,
-                       'call_ndarray': w.args[0].atoms_positions}[name]
+                       'call_ndarray': w.args[0].atoms_positions, 'call_same_name_longer': w.longer,
+                       'call_same_name_shorter': w.shorter}[name]
                 try:
                     w.map(bad)
                     V.append((f'{name}/accepted', 'no exception'))
